@@ -201,6 +201,18 @@ def gen_lifecycle(rng):
         # re-delivered BEFORE any hit: whether a re-delivery resets the limits cannot matter, so the case is judged fully
         ops[1:1] = [{'op': rng.choice(['no_change', 'other_custom'])}] * rng.choice([0, 1]) + [{'op': 'update', 'present': True}]
     case = {'kind': 'lifecycle', 'origin': origin, 'action': base['action'], 'cfg': cfg, 'ops': ops}
+    if rng.random() < 0.3:
+        # the hand-over to the trigger handler as an event of its own (the pool worker running update_listeners): at once
+        # after each configuration operation, or late / batched (hits in between go to the OLD configuration)
+        at_once = rng.random() < 0.4
+        out = []
+        for o in ops:
+            out.append(o)
+            if o['op'] != 'hit' and (at_once or rng.random() < 0.5):
+                out.append({'op': 'applied'})
+        case['ops'] = out
+        case['delayed'] = True
+        return case
     if rng.random() < 0.4:
         # ONE tracepoint, several actions (snapshot + two metrics [+ span]): each action has its own budget
         case['action'] = 'snapshot'
@@ -605,6 +617,19 @@ def run_lifecycle(case):
     try:
         svc = rig.config.tracepoints
         rig.tasks = SyncTasks()
+        queued = []
+        if case.get('delayed'):
+            class Deferred:
+                """the pool: submitted tasks wait until the case says a worker runs them (`applied`)"""
+
+                def submit_task(self, fn, *a):
+                    queued.append((fn, a))
+
+                    class Fut:
+                        def add_done_callback(self, cb):
+                            pass
+                    return Fut()
+            rig.tasks = Deferred()
         svc.set_task_handler(rig.tasks)
         args = lifecycle_args(case)
         multi = case.get('multi')
@@ -633,7 +658,11 @@ def run_lifecycle(case):
             n += 1
             k = op['op']
             try:
-                if k == 'update':
+                if k == 'applied':
+                    while queued:
+                        fn, a = queued.pop(0)
+                        fn(*a)
+                elif k == 'update':
                     svc.update_new_config(n, 'hash%d' % n, g.convert_response(response(op['present'], n)))
                 elif k == 'no_change':
                     svc.update_no_change(n)
@@ -694,6 +723,14 @@ def lifecycle_reference(case, per_tracepoint=True):
                 out.append(ts)
                 made, last = made + 1, ts
     return out
+
+
+def handed_over_at_once(case):
+    ops = case['ops']
+    for i, o in enumerate(ops):
+        if o['op'] not in ('hit', 'applied') and not (i + 1 < len(ops) and ops[i + 1]['op'] == 'applied'):
+            return False
+    return True
 
 
 def valid_lifecycle(case):
@@ -773,6 +810,8 @@ def oracle(case, obs):
     if case['kind'] == 'lifecycle':
         if 'raised' in obs:
             return ['the agent raised: ' + obs['raised']]
+        if case.get('delayed') and not handed_over_at_once(case):
+            return []          # what is installed WHEN is C12's; these cases are compared with the delayed model only
         exp = lifecycle_reference(case)
         if case.get('multi'):
             what = 'registered in code' if case['origin'] == 'code' else 'from the service'
@@ -870,6 +909,9 @@ def known_finding(case, obs):
 
 
 def model_request(case, obs):
+    if case['kind'] == 'lifecycle' and case.get('delayed'):
+        return {'op': 'opsD', 'origin': case['origin'], 'cfg': case['cfg'],
+                'ops': [dict(o, cond=o['cond'] == 'true') if o['op'] == 'hit' else o for o in case['ops']]}
     if case['kind'] == 'lifecycle' and case.get('multi'):
         return {'op': 'opsN', 'origin': case['origin'], 'cfgs': [case['cfg']] * len(case['multi']),
                 'ops': [dict(o, cond=o['cond'] == 'true') if o['op'] == 'hit' else o for o in case['ops']]}
@@ -918,6 +960,13 @@ def compare(case, obs, resp):
         if sorted(map(tuple, resp['collected'])) != sorted(map(tuple, got)):
             return [f'collected per action: model {resp["collected"]} vs implementation {obs["collected"]}']
         return []
+    if case['kind'] == 'lifecycle' and case.get('delayed'):
+        d = []
+        if resp['at_once'] != handed_over_at_once(case):
+            d.append('model and harness disagree on whether every operation is handed over at once')
+        if resp['collected'] != obs['collected']:
+            d.append(f'collected (hand-over as events): model {resp["collected"]} vs implementation {obs["collected"]}')
+        return d
     if case['kind'] == 'lifecycle' and not case.get('multi'):
         d = []
         if resp['ages_svc'] != resp['ages_model']:
@@ -949,6 +998,8 @@ def label(case, obs):
     if case['kind'] == 'lifecycle':
         kinds = {o['op'] + ('+' if o.get('present') else '-') if o['op'] == 'update' else o['op'] for o in case['ops']}
         kinds.discard('hit')
+        if case.get('delayed'):
+            return 'lifecycle/%s/handover-%s' % (case['origin'], 'at-once' if handed_over_at_once(case) else 'late')
         return 'lifecycle/%s/%s/%s' % (case['origin'], '+'.join(case['multi']) if case.get('multi') else case['action'],
                                        'resent' if resent_while_installed(case) else
                                        'reinstalled' if len([o for o in case['ops'] if o['op'] in ('register',) or
